@@ -607,7 +607,7 @@ fn main() {
     }
     let mut all_t: Vec<DataType> = grid.clone();
     all_t.extend(int_types());
-    for _ in 0..(n / 20).max(20) {
+    for _ in 0..(n / 50).max(20) {
         let a = rng.pick(&grid).clone();
         let b = rng.pick(&all_t).clone();
         pairs.push((a, b));
